@@ -1335,6 +1335,16 @@ asn1constraint_compute_constraint_range(
 		return range;
 	}
 
+	/* A character set such as FROM("abc") arrives as a list of elements */
+	if(range->el_count == 0
+	&& _edge_compare(&range->left, &range->right) > 0) {
+		FATAL("Range lower bound is greater than its upper bound "
+			"in a constraint at line %d", ct->_lineno);
+		_range_free(range);
+		errno = EPERM;
+		return NULL;
+	}
+
 	if(minmax) {
 		asn1cnst_range_t *clone;
 
